@@ -28,72 +28,87 @@ theorem printNodes_txt (s : Str) : printNodes (txt s) = s := by
   · rename_i h; simp [printNodes, List.isEmpty_iff.1 h]
   · simp [printNodes, printNode]
 
-/-- `Html.element` without styles / properties, at document level. -/
-def el (tag : Str) (opts cls : List Str) (children : List HNode) : HNode :=
-  .elem tag (elementAttrs opts cls [] []) children
+/-- `Html.element` without keyword properties, at document level. -/
+def el (tag : Str) (opts cls : List Str) (styles : List (Str × Option Str)) (children : List HNode) :
+    HNode :=
+  .elem tag (elementAttrs opts cls styles []) children
 
-theorem element_print (tag : Str) (opts cls : List Str) (chs : List Str) (doc : List HNode)
-    (h : concatStrs chs = printNodes doc) :
-    element tag opts cls [] [] chs = printNode (el tag opts cls doc) := by
+theorem element_print (tag : Str) (opts cls : List Str) (styles : List (Str × Option Str))
+    (chs : List Str) (doc : List HNode) (h : concatStrs chs = printNodes doc) :
+    element tag opts cls styles [] chs = printNode (el tag opts cls styles doc) := by
   simp [element, el, printNode, h]
 
-def tooltipDoc (text : Str) : HNode := el c!"span" [] [c!"tooltip"] (txt (escape text))
+def tooltipDoc (css : List Str) (text : Str) : HNode :=
+  el c!"span" [] (c!"tooltip" :: css) [] (txt (escape text))
 
-def summaryDoc (c : Ctx) (name : Option Str) (t : Tree) : HNode :=
-  el c!"summary" [] []
+def summaryDoc (c : Ctx) (top : Top) (name : Option Str) (t : Tree) : HNode :=
+  el c!"summary" [] [] []
     ((match name with
-      | some n => [el c!"div" [] [c!"summary-name"]
-                    (txt (escape n) ++ (if c.enableKeyTooltip then [tooltipDoc t.ptip] else []))]
+      | some n => [el c!"div" [] (c!"summary-name" :: top.cssClasses) (colorStyles top.summaryColor)
+                    (txt (escape n)
+                      ++ (if c.enableKeyTooltip then [tooltipDoc top.cssClasses t.ptip] else []))]
       | none => [])
-     ++ [el c!"div" [] [c!"summary-title"] (txt t.title)]
-     ++ (if c.enableSummaryTooltip then [tooltipDoc t.tip] else []))
+     ++ [el c!"div" [] (c!"summary-title" :: top.cssClasses) [] (txt (titleText top t))]
+     ++ (if c.enableSummaryTooltip then [tooltipDoc top.cssClasses t.tip] else []))
 
 def objectKeyDoc (c : Ctx) (t : Tree) : List HNode :=
-  el c!"span" [] [c!"object-key", t.key.typeName] (txt (escape t.key.text))
-  :: (if c.enableKeyTooltip then [tooltipDoc t.ptip] else [])
+  el c!"span" [] [c!"object-key", t.key.typeName] (colorStyles c.keyColor) (txt (escape t.key.text))
+  :: (if c.enableKeyTooltip then [tooltipDoc [] t.ptip] else [])
 
-def simpleValueDoc (c : Ctx) (t : Tree) : HNode :=
-  el c!"span" [] [c!"simple-value", t.cssName] (txt (escape (leafText c t)))
+def simpleValueDoc (c : Ctx) (css : List Str) (t : Tree) : HNode :=
+  el c!"span" [] (c!"simple-value" :: t.cssName :: css) [] (txt (escape (leafText c t)))
 
-def detailsDoc (c : Ctx) (name : Option Str) (path : List Key) (t : Tree) (content : HNode) : HNode :=
-  if needsSummary c name.isSome t then
+def detailsDoc (c : Ctx) (top : Top) (name : Option Str) (path : List Key) (t : Tree)
+    (content : HNode) : HNode :=
+  if hasSummary c top name t then
     el c!"details" [if shouldCollapse c name.isSome path t then [] else c!"open"]
-      [c!"pyglove", t.cssName] [summaryDoc c name t, content]
+      (c!"pyglove" :: t.cssName :: top.cssClasses) [] [summaryDoc c top name t, content]
   else content
 
-def complexDoc (kind : NodeKind) (body : List HNode) : HNode :=
-  el c!"div" [] [c!"complex-value", kind.cssName] body
+def complexDoc (kind : NodeKind) (css : List Str) (body : List HNode) : HNode :=
+  el c!"div" [] (c!"complex-value" :: kind.cssName :: css) [] body
 
 def rowDoc (keyCell : List HNode) (valueCell : HNode) : HNode :=
-  el c!"tr" [] [] [el c!"td" [] [] keyCell, el c!"td" [] [] [valueCell]]
+  el c!"tr" [] [] [] [el c!"td" [] [] [] keyCell, el c!"td" [] [] [] [valueCell]]
+
+/-- The highlight / lowlight wrapper: at most ONE `div` around the child. -/
+def wrapDoc (c : Ctx) (path : List Key) (n : HNode) : HNode :=
+  if (hlClasses c path).isEmpty then n else el c!"div" [] (hlClasses c path) [] [n]
 
 mutual
-  def renderDoc (c : Ctx) (name : Option Str) (path : List Key) : Tree → HNode
+  def renderDoc (c : Ctx) (top : Top) (name : Option Str) (path : List Key) : Tree → HNode
     | .leaf k p kind repr raw tip =>
-      detailsDoc c name path (.leaf k p kind repr raw tip) (simpleValueDoc c (.leaf k p kind repr raw tip))
+      detailsDoc c top name path (.leaf k p kind repr raw tip)
+        (simpleValueDoc c (contentCss c top name (.leaf k p kind repr raw tip))
+          (.leaf k p kind repr raw tip))
     | .node k p kind tip children =>
-      detailsDoc c name path (.node k p kind tip children)
-        (complexDoc kind
+      detailsDoc c top name path (.node k p kind tip children)
+        (complexDoc kind (contentCss c top name (.node k p kind tip children))
           (match children with
-           | [] => [el c!"span" [] [c!"empty-container"] []]
+           | [] => [el c!"span" [] [c!"empty-container"] [] []]
            | _ :: _ =>
-             if kind.isSeq || c.keyStyle == .label then [el c!"table" [] [] (rowsDoc c path children)]
+             if kind.isSeq || c.keyStyle == .label then
+               [el c!"table" [] [] [] (rowsDoc c path children)]
              else summaryChildrenDoc c path children))
   def summaryChildrenDoc (c : Ctx) (path : List Key) : List Tree → List HNode
     | [] => []
     | t :: ts =>
-      renderDoc (childCtx c) (some t.key.summaryName) (path ++ [t.key]) t :: summaryChildrenDoc c path ts
+      wrapDoc c (path ++ [t.key])
+        (renderDoc (childCtx c) {} (some t.key.summaryName) (path ++ [t.key]) t)
+      :: summaryChildrenDoc c path ts
   def rowsDoc (c : Ctx) (path : List Key) : List Tree → List HNode
     | [] => []
     | t :: ts =>
-      rowDoc (objectKeyDoc (childCtx c) t) (renderDoc (childCtx c) none (path ++ [t.key]) t)
+      rowDoc (objectKeyDoc (childCtx c) t)
+        (wrapDoc c (path ++ [t.key]) (renderDoc (childCtx c) {} none (path ++ [t.key]) t))
       :: rowsDoc c path ts
 end
 
 /-! ### render = print ∘ renderDoc -/
 
-theorem complexEl_print (kind : NodeKind) (body : Str) (doc : List HNode) (h : body = printNodes doc) :
-    complexEl kind body = printNode (complexDoc kind doc) := by
+theorem complexEl_print (kind : NodeKind) (css : List Str) (body : Str) (doc : List HNode)
+    (h : body = printNodes doc) :
+    complexEl kind css body = printNode (complexDoc kind css doc) := by
   unfold complexEl complexDoc
   apply element_print
   simp [concatStrs, h]
@@ -105,6 +120,14 @@ theorem rowEl_print (k v : Str) (kd : List HNode) (vd : HNode) (hk : k = printNo
   simp [concatStrs, printNodes, printNode, el, elementAttrs, openTag, closeTag, attrsStr, tdOpen, tdClose,
     hk, hv, optAttr, joinSp, dedup, styleStr, propAttrs]
 
+theorem wrapHL_print (c : Ctx) (path : List Key) (html : Str) (n : HNode) (h : html = printNode n) :
+    wrapHL c path html = printNode (wrapDoc c path n) := by
+  unfold wrapHL wrapDoc
+  split
+  · exact h
+  · apply element_print
+    simp [concatStrs, printNodes, h]
+
 section
 variable (st : Sites) (hst : st.allEscaped = true)
 include hst
@@ -114,34 +137,38 @@ theorem sites_all : st.summaryName = true ∧ st.objectKey = true ∧ st.simpleV
   simp only [Sites.allEscaped, Bool.and_eq_true] at hst
   exact ⟨hst.1.1.1, hst.1.1.2, hst.1.2, hst.2⟩
 
-theorem tooltipEl_print (text : Str) : tooltipEl st text = printNode (tooltipDoc text) := by
+theorem tooltipEl_print (css : List Str) (text : Str) :
+    tooltipEl st css text = printNode (tooltipDoc css text) := by
   obtain ⟨_, _, _, h4⟩ := sites_all st hst
   unfold tooltipEl tooltipDoc
   apply element_print
   simp [concatStrs, emit, h4, printNodes_txt]
 
-theorem summaryEl_print (c : Ctx) (name : Option Str) (t : Tree) :
-    summaryEl st c name t = printNode (summaryDoc c name t) := by
+theorem summaryEl_print (c : Ctx) (top : Top) (name : Option Str) (t : Tree) :
+    summaryEl st c top name t = printNode (summaryDoc c top name t) := by
   obtain ⟨h1, _, _, _⟩ := sites_all st hst
   unfold summaryEl summaryDoc
   apply element_print
   have ht := tooltipEl_print st hst
+  have htt := element_print c!"div" [] (c!"summary-title" :: top.cssClasses) [] [titleText top t]
+    (txt (titleText top t)) (by simp [concatStrs, printNodes_txt])
   cases name with
   | none =>
+    simp only [concatStrs, List.append_nil, List.nil_append]
+    rw [htt]
     by_cases h2 : c.enableSummaryTooltip = true
-    · simp [concatStrs, printNodes, printNodes_append, h2, ht, ← element_print _ _ _ [t.title] (txt t.title) (by simp [concatStrs, printNodes_txt])]
-    · simp [concatStrs, printNodes, printNodes_append, h2, ← element_print _ _ _ [t.title] (txt t.title) (by simp [concatStrs, printNodes_txt])]
+    · simp [printNodes, h2, ht]
+    · simp [printNodes, h2]
   | some n =>
-    have hn : element c!"div" [] [c!"summary-name"] [] []
-          [emit st.summaryName n, if c.enableKeyTooltip then tooltipEl st t.ptip else []]
-        = printNode (el c!"div" [] [c!"summary-name"]
-            (txt (escape n) ++ (if c.enableKeyTooltip then [tooltipDoc t.ptip] else []))) := by
+    have hn : element c!"div" [] (c!"summary-name" :: top.cssClasses) (colorStyles top.summaryColor) []
+          [emit st.summaryName n, if c.enableKeyTooltip then tooltipEl st top.cssClasses t.ptip else []]
+        = printNode (el c!"div" [] (c!"summary-name" :: top.cssClasses) (colorStyles top.summaryColor)
+            (txt (escape n)
+              ++ (if c.enableKeyTooltip then [tooltipDoc top.cssClasses t.ptip] else []))) := by
       apply element_print
       by_cases h3 : c.enableKeyTooltip = true
       · simp [concatStrs, printNodes_append, printNodes_txt, emit, h1, h3, ht, printNodes]
       · simp [concatStrs, printNodes_append, printNodes_txt, emit, h1, h3, printNodes]
-    have htt := element_print c!"div" [] [c!"summary-title"] [t.title] (txt t.title)
-      (by simp [concatStrs, printNodes_txt])
     simp only [concatStrs, List.append_nil]
     rw [hn, htt]
     by_cases h2 : c.enableSummaryTooltip = true
@@ -153,24 +180,26 @@ theorem objectKeyEl_print (c : Ctx) (t : Tree) :
   obtain ⟨_, h2, _, _⟩ := sites_all st hst
   unfold objectKeyEl objectKeyDoc
   have ht := tooltipEl_print st hst
-  have hk : element c!"span" [] [c!"object-key", t.key.typeName] [] [] [emit st.objectKey t.key.text]
-      = printNode (el c!"span" [] [c!"object-key", t.key.typeName] (txt (escape t.key.text))) := by
+  have hk : element c!"span" [] [c!"object-key", t.key.typeName] (colorStyles c.keyColor) []
+        [emit st.objectKey t.key.text]
+      = printNode (el c!"span" [] [c!"object-key", t.key.typeName] (colorStyles c.keyColor)
+          (txt (escape t.key.text))) := by
     apply element_print
     simp [concatStrs, emit, h2, printNodes_txt]
   by_cases h3 : c.enableKeyTooltip = true
   · simp [printNodes, h3, ht, hk]
   · simp [printNodes, h3, hk]
 
-theorem simpleValueEl_print (c : Ctx) (t : Tree) :
-    simpleValueEl st c t = printNode (simpleValueDoc c t) := by
+theorem simpleValueEl_print (c : Ctx) (css : List Str) (t : Tree) :
+    simpleValueEl st c css t = printNode (simpleValueDoc c css t) := by
   obtain ⟨_, _, h3, _⟩ := sites_all st hst
   unfold simpleValueEl simpleValueDoc
   apply element_print
   simp [concatStrs, emit, h3, printNodes_txt]
 
-theorem detailsEl_print (c : Ctx) (name : Option Str) (path : List Key) (t : Tree)
+theorem detailsEl_print (c : Ctx) (top : Top) (name : Option Str) (path : List Key) (t : Tree)
     (content : Str) (doc : HNode) (h : content = printNode doc) :
-    detailsEl st c name path t content = printNode (detailsDoc c name path t doc) := by
+    detailsEl st c top name path t content = printNode (detailsDoc c top name path t doc) := by
   unfold detailsEl detailsDoc
   split
   · apply element_print
@@ -178,27 +207,27 @@ theorem detailsEl_print (c : Ctx) (name : Option Str) (path : List Key) (t : Tre
   · exact h
 
 mutual
-  theorem render_print (c : Ctx) (name : Option Str) (path : List Key) (t : Tree) :
-      render st c name path t = printNode (renderDoc c name path t) := by
+  theorem render_print (c : Ctx) (top : Top) (name : Option Str) (path : List Key) (t : Tree) :
+      render st c top name path t = printNode (renderDoc c top name path t) := by
     cases t with
     | leaf k p kind repr raw tip =>
       simp only [render, renderDoc]
-      exact detailsEl_print st hst _ _ _ _ _ _ (simpleValueEl_print st hst _ _)
+      exact detailsEl_print st hst _ _ _ _ _ _ _ (simpleValueEl_print st hst _ _ _)
     | node k p kind tip children =>
       simp only [render, renderDoc]
       apply detailsEl_print st hst
       apply complexEl_print
       cases children with
       | nil =>
-        show emptySpan = printNodes [el c!"span" [] [c!"empty-container"] []]
+        show emptySpan = printNodes [el c!"span" [] [c!"empty-container"] [] []]
         simp only [emptySpan, printNodes, List.append_nil]
-        exact element_print _ _ _ _ _ rfl
+        exact element_print _ _ _ _ _ _ rfl
       | cons t ts =>
         show (if (kind.isSeq || c.keyStyle == KeyStyle.label) = true then
             c!"<table>" ++ rows st c path (t :: ts) ++ c!"</table>"
           else summaryChildren st c path (t :: ts)) =
           printNodes (if (kind.isSeq || c.keyStyle == KeyStyle.label) = true then
-            [el c!"table" [] [] (rowsDoc c path (t :: ts))]
+            [el c!"table" [] [] [] (rowsDoc c path (t :: ts))]
           else summaryChildrenDoc c path (t :: ts))
         split
         · have := rows_print c path (t :: ts)
@@ -211,7 +240,8 @@ mutual
     | nil => rfl
     | cons t ts =>
       simp only [summaryChildren, summaryChildrenDoc, printNodes]
-      rw [render_print (childCtx c) _ _ t, summaryChildren_print c path ts]
+      rw [summaryChildren_print c path ts,
+        wrapHL_print c _ _ _ (render_print (childCtx c) {} _ _ t)]
   theorem rows_print (c : Ctx) (path : List Key) (ts : List Tree) :
       rows st c path ts = printNodes (rowsDoc c path ts) := by
     cases ts with
@@ -219,14 +249,11 @@ mutual
     | cons t ts =>
       simp only [rows, rowsDoc, printNodes]
       rw [rows_print c path ts]
-      rw [rowEl_print _ _ _ _ (objectKeyEl_print st hst _ _) (render_print (childCtx c) none _ t)]
+      rw [rowEl_print _ _ _ _ (objectKeyEl_print st hst _ _)
+        (wrapHL_print c _ _ _ (render_print (childCtx c) {} none _ t))]
 end
 
 end
-
-end Pg.C20
-
-namespace Pg.C20
 
 /-! ### the rendered document is well-formed and uses the library's vocabulary only -/
 
@@ -357,15 +384,72 @@ theorem safeVal_joinSp (l : List Str) (h : ∀ s ∈ l, safeVal s = true) : safe
 /-- The `options` lists the tree view uses: none, a suppressed one, or `open`. -/
 def optsOk (opts : List Str) : Bool := opts == [] || opts == [[]] || opts == [c!"open"]
 
-theorem okNode_el (tag : Str) (opts cls : List Str) (children : List HNode)
+def safeColor (c : Option (Option Str × Option Str)) : Bool :=
+  match c with
+  | none => true
+  | some (a, b) => (match a with | none => true | some x => safeVal x)
+                   && (match b with | none => true | some x => safeVal x)
+
+theorem safeVal_append (a b : Str) (ha : safeVal a = true) (hb : safeVal b = true) :
+    safeVal (a ++ b) = true := by
+  simp only [safeVal, List.all_append, Bool.and_eq_true] at *
+  exact ⟨ha, hb⟩
+
+theorem safeVal_styleStr (l : List (Str × Option Str))
+    (h : ∀ p ∈ l, safeVal (dashed p.1) = true ∧ ∀ v, p.2 = some v → safeVal v = true) :
+    safeVal (styleStr l) = true := by
+  induction l with
+  | nil => rfl
+  | cons p l ih =>
+    obtain ⟨k, v⟩ := p
+    have hp := h (k, v) List.mem_cons_self
+    have hr := ih (fun q hq => h q (List.mem_cons_of_mem _ hq))
+    cases v with
+    | none => simpa [styleStr] using hr
+    | some x =>
+      have hk := hp.1
+      have hx := hp.2 x rfl
+      have c1 : isValueChar ':' = true := by decide
+      have c2 : isValueChar ';' = true := by decide
+      simp only [safeVal] at hk hx hr ⊢
+      simp [styleStr, List.all_append, hk, hx, hr, c1, c2]
+
+theorem safeVal_colorStyles (c : Option (Option Str × Option Str)) (h : safeColor c = true) :
+    safeVal (styleStr (colorStyles c)) = true := by
+  apply safeVal_styleStr
+  cases c with
+  | none =>
+    intro p hp
+    simp only [colorStyles, List.mem_cons, List.mem_nil_iff, or_false] at hp
+    rcases hp with rfl | rfl
+    · exact ⟨by decide, fun v hv => by cases hv⟩
+    · exact ⟨by decide, fun v hv => by cases hv⟩
+  | some q =>
+    obtain ⟨a, b⟩ := q
+    simp only [safeColor, Bool.and_eq_true] at h
+    intro p hp
+    simp only [colorStyles, List.mem_cons, List.mem_nil_iff, or_false] at hp
+    rcases hp with rfl | rfl
+    · refine ⟨(by decide : safeVal (dashed c!"color") = true), fun v hv => ?_⟩
+      simp only at hv
+      subst hv
+      exact h.1
+    · refine ⟨(by decide : safeVal (dashed c!"background_color") = true), fun v hv => ?_⟩
+      simp only at hv
+      subst hv
+      exact h.2
+
+theorem okNode_el (tag : Str) (opts cls : List Str) (styles : List (Str × Option Str))
+    (children : List HNode)
     (ht : libraryTags.contains tag = true) (hv : validName tag = true) (ho : optsOk opts = true)
-    (hc : ∀ s ∈ cls, safeVal s = true) (hch : okNodes children = true) :
-    okNode (el tag opts cls children) = true := by
+    (hc : ∀ s ∈ cls, safeVal s = true) (hs : safeVal (styleStr styles) = true)
+    (hch : okNodes children = true) :
+    okNode (el tag opts cls styles children) = true := by
   have hjoin : safeVal (joinSp (dedup cls)) = true :=
     safeVal_joinSp _ (fun s hs => hc s (dedup_subset cls s hs))
   simp only [el, okNode, ht, hv, hch, Bool.and_true, Bool.true_and, List.all_eq_true]
   intro a ha
-  simp only [elementAttrs, styleStr, propAttrs, List.append_nil, List.mem_append] at ha
+  simp only [elementAttrs, propAttrs, List.append_nil, List.mem_append] at ha
   have hcls : a ∈ optAttr c!"class" (joinSp (dedup cls)) →
       (wfAttr a && libraryAttrs.contains a.name) = true := by
     intro ha
@@ -376,31 +460,42 @@ theorem okNode_el (tag : Str) (opts cls : List Str) (children : List HNode)
       subst ha
       simp only [wfAttr, Bool.and_eq_true]
       exact ⟨⟨by decide, hjoin⟩, by decide⟩
-  have hstyle : a ∉ optAttr c!"style" [] := by simp [optAttr]
+  have hstyle : a ∈ optAttr c!"style" (styleStr styles) →
+      (wfAttr a && libraryAttrs.contains a.name) = true := by
+    intro ha
+    unfold optAttr at ha
+    split at ha
+    · cases ha
+    · simp only [List.mem_singleton] at ha
+      subst ha
+      simp only [wfAttr, Bool.and_eq_true]
+      exact ⟨⟨by decide, hs⟩, by decide⟩
   simp only [optsOk, Bool.or_eq_true, beq_iff_eq] at ho
   rcases ho with (rfl | rfl) | rfl
   · rcases ha with (ha | ha) | ha
     · simp [dedup, joinSp] at ha
     · exact hcls ha
-    · exact absurd ha hstyle
+    · exact hstyle ha
   · rcases ha with (ha | ha) | ha
     · simp [dedup, joinSp] at ha
     · exact hcls ha
-    · exact absurd ha hstyle
+    · exact hstyle ha
   · rcases ha with (ha | ha) | ha
     · have : a = ⟨c!"open", none⟩ := by simpa [dedup, joinSp] using ha
       subst this; decide
     · exact hcls ha
-    · exact absurd ha hstyle
+    · exact hstyle ha
 
-theorem okNodes_cons_el (tag : Str) (opts cls : List Str) (children rest : List HNode) :
-    okNodes (el tag opts cls children :: rest)
-      = (okNode (el tag opts cls children) && okNodes rest) := by
+theorem okNodes_cons_el (tag : Str) (opts cls : List Str) (styles : List (Str × Option Str))
+    (children rest : List HNode) :
+    okNodes (el tag opts cls styles children :: rest)
+      = (okNode (el tag opts cls styles children) && okNodes rest) := by
   simp [okNodes, el, noAdjText]
 
 theorem okNodes_txt_then (s : Str) (h : noLt s = true) (tag : Str) (opts cls : List Str)
-    (children : List HNode) (hel : okNode (el tag opts cls children) = true) :
-    okNodes (txt s ++ [el tag opts cls children]) = true := by
+    (styles : List (Str × Option Str))
+    (children : List HNode) (hel : okNode (el tag opts cls styles children) = true) :
+    okNodes (txt s ++ [el tag opts cls styles children]) = true := by
   unfold txt
   split
   · simp [okNodes_cons_el, hel, okNodes]
@@ -467,7 +562,8 @@ theorem key_typeName_safe (k : Key) : safeVal k.typeName = true := by cases k <;
 
 /-! ### okNode of the pieces -/
 
-theorem isText_el (tag : Str) (opts cls : List Str) (ch : List HNode) : isText (el tag opts cls ch) = false := rfl
+theorem isText_el (tag : Str) (opts cls : List Str) (st : List (Str × Option Str)) (ch : List HNode) :
+    isText (el tag opts cls st ch) = false := rfl
 
 theorem okNodes_singleton (n : HNode) (h : okNode n = true) : okNodes [n] = true := by
   cases n <;> simp [okNodes, h, noAdjText]
@@ -479,158 +575,220 @@ theorem okNodes_pair_el (n : HNode) (hn : okNode n = true) (hne : isText n = fal
   | elem tag attrs cs => cases m <;> simp [okNodes, hn, hm, noAdjText]
 
 
-theorem ok_tooltipDoc (text : Str) : okNode (tooltipDoc text) = true := by
-  unfold tooltipDoc
-  refine okNode_el _ _ _ _ (by decide) (by decide) (by decide) ?_ (okNodes_txt _ (noLt_escape _))
-  intro s hs
-  simp only [List.mem_singleton] at hs
-  subst hs; decide
 
-theorem ok_summaryDoc (c : Ctx) (name : Option Str) (t : Tree) (ht : safeTree t = true) :
-    okNode (summaryDoc c name t) = true := by
-  unfold summaryDoc
-  have htitle : okNode (el c!"div" [] [c!"summary-title"] (txt t.title)) = true := by
-    refine okNode_el _ _ _ _ (by decide) (by decide) (by decide) ?_ (okNodes_txt _ (tree_title_noLt t ht))
-    intro s hs
-    simp only [List.mem_singleton] at hs
-    subst hs; decide
-  have htail : okNodes ([el c!"div" [] [c!"summary-title"] (txt t.title)]
-      ++ (if c.enableSummaryTooltip then [tooltipDoc t.tip] else [])) = true := by
+/-! ### safe options: css classes, colours and the title are caller-chosen markup-level text -/
+
+/-- Root-only options: css classes and colours fit into an attribute value, the title has no `<`. -/
+def safeTop (top : Top) : Bool :=
+  top.cssClasses.all safeVal && safeColor top.summaryColor
+  && (match top.title with | none => true | some s => noLt s)
+
+def safeCtx (c : Ctx) : Bool := safeColor c.keyColor
+
+theorem safeTop_default : safeTop {} = true := rfl
+theorem safeCtx_child (c : Ctx) : safeCtx (childCtx c) = safeCtx c := rfl
+
+theorem safeTop_css (top : Top) (h : safeTop top = true) : ∀ s ∈ top.cssClasses, safeVal s = true := by
+  simp only [safeTop, Bool.and_eq_true, List.all_eq_true] at h
+  exact h.1.1
+
+theorem titleText_noLt (top : Top) (t : Tree) (h : safeTop top = true) (ht : safeTree t = true) :
+    noLt (titleText top t) = true := by
+  simp only [safeTop, Bool.and_eq_true] at h
+  unfold titleText
+  cases hti : top.title with
+  | none => exact tree_title_noLt t ht
+  | some s =>
+    have := h.2
+    rw [hti] at this
+    simp only
     split
-    · exact okNodes_pair_el _ (ok_tooltipDoc t.tip) rfl _ htitle
+    · exact tree_title_noLt t ht
+    · exact this
+
+theorem mem_cons_css {x : Str} {css : List Str} (hcss : ∀ s ∈ css, safeVal s = true)
+    (hx : safeVal x = true) : ∀ s ∈ x :: css, safeVal s = true := by
+  intro s hs
+  simp only [List.mem_cons] at hs
+  rcases hs with rfl | hs
+  · exact hx
+  · exact hcss s hs
+
+theorem ok_tooltipDoc (css : List Str) (text : Str) (hcss : ∀ s ∈ css, safeVal s = true) :
+    okNode (tooltipDoc css text) = true := by
+  unfold tooltipDoc
+  exact okNode_el _ _ _ _ _ (by decide) (by decide) (by decide) (mem_cons_css hcss (by decide)) rfl
+    (okNodes_txt _ (noLt_escape _))
+
+theorem no_css : ∀ s ∈ ([] : List Str), safeVal s = true := by intro s hs; cases hs
+
+theorem ok_summaryDoc (c : Ctx) (top : Top) (name : Option Str) (t : Tree) (ht : safeTree t = true)
+    (htop : safeTop top = true) : okNode (summaryDoc c top name t) = true := by
+  unfold summaryDoc
+  have hcss := safeTop_css top htop
+  have hcol : safeColor top.summaryColor = true := by
+    simp only [safeTop, Bool.and_eq_true] at htop; exact htop.1.2
+  have htitle : okNode (el c!"div" [] (c!"summary-title" :: top.cssClasses) []
+      (txt (titleText top t))) = true :=
+    okNode_el _ _ _ _ _ (by decide) (by decide) (by decide) (mem_cons_css hcss (by decide)) rfl
+      (okNodes_txt _ (titleText_noLt top t htop ht))
+  have htail : okNodes ([el c!"div" [] (c!"summary-title" :: top.cssClasses) [] (txt (titleText top t))]
+      ++ (if c.enableSummaryTooltip then [tooltipDoc top.cssClasses t.tip] else [])) = true := by
+    split
+    · exact okNodes_pair_el _ (ok_tooltipDoc _ t.tip hcss) rfl _ htitle
     · exact okNodes_singleton _ htitle
-  refine okNode_el _ _ _ _ (by decide) (by decide) (by decide) (by intro s hs; cases hs) ?_
+  refine okNode_el _ _ _ _ _ (by decide) (by decide) (by decide) no_css rfl ?_
   cases name with
   | none => simpa using htail
   | some n =>
-    have hname : okNode (el c!"div" [] [c!"summary-name"]
-        (txt (escape n) ++ (if c.enableKeyTooltip then [tooltipDoc t.ptip] else []))) = true := by
-      refine okNode_el _ _ _ _ (by decide) (by decide) (by decide) ?_ ?_
-      · intro s hs
-        simp only [List.mem_singleton] at hs
-        subst hs; decide
-      · split
-        · exact okNodes_txt_then _ (noLt_escape n) _ _ _ _ (ok_tooltipDoc t.ptip)
-        · simpa using okNodes_txt _ (noLt_escape n)
-    simp only [List.cons_append, List.nil_append, List.append_assoc]
+    have hname : okNode (el c!"div" [] (c!"summary-name" :: top.cssClasses) (colorStyles top.summaryColor)
+        (txt (escape n) ++ (if c.enableKeyTooltip then [tooltipDoc top.cssClasses t.ptip] else [])))
+        = true := by
+      refine okNode_el _ _ _ _ _ (by decide) (by decide) (by decide) (mem_cons_css hcss (by decide))
+        (safeVal_colorStyles _ hcol) ?_
+      split
+      · exact okNodes_txt_then _ (noLt_escape n) _ _ _ _ _ (ok_tooltipDoc _ t.ptip hcss)
+      · simpa using okNodes_txt _ (noLt_escape n)
+    simp only [List.cons_append, List.nil_append]
     rw [okNodes_cons_el, hname]
     simpa using htail
 
-theorem ok_objectKeyDoc (c : Ctx) (t : Tree) : okNodes (objectKeyDoc c t) = true := by
+theorem ok_objectKeyDoc (c : Ctx) (t : Tree) (hc : safeCtx c = true) :
+    okNodes (objectKeyDoc c t) = true := by
   unfold objectKeyDoc
-  have hk : okNode (el c!"span" [] [c!"object-key", t.key.typeName] (txt (escape t.key.text))) = true := by
-    refine okNode_el _ _ _ _ (by decide) (by decide) (by decide) ?_ (okNodes_txt _ (noLt_escape _))
-    intro s hs
-    simp only [List.mem_cons, List.mem_nil_iff, or_false] at hs
-    rcases hs with rfl | rfl
-    · decide
-    · exact key_typeName_safe _
+  have hk : okNode (el c!"span" [] [c!"object-key", t.key.typeName] (colorStyles c.keyColor)
+      (txt (escape t.key.text))) = true := by
+    refine okNode_el _ _ _ _ _ (by decide) (by decide) (by decide) ?_ (safeVal_colorStyles _ hc)
+      (okNodes_txt _ (noLt_escape _))
+    exact mem_cons_css (mem_cons_css no_css (key_typeName_safe _)) (by decide)
   split
-  · exact okNodes_pair_el _ (ok_tooltipDoc t.ptip) rfl _ hk
+  · exact okNodes_pair_el _ (ok_tooltipDoc [] t.ptip no_css) rfl _ hk
   · exact okNodes_singleton _ hk
 
-theorem ok_simpleValueDoc (c : Ctx) (t : Tree) (ht : safeTree t = true) :
-    okNode (simpleValueDoc c t) = true := by
+theorem ok_simpleValueDoc (c : Ctx) (css : List Str) (t : Tree) (ht : safeTree t = true)
+    (hcss : ∀ s ∈ css, safeVal s = true) : okNode (simpleValueDoc c css t) = true := by
   unfold simpleValueDoc
-  refine okNode_el _ _ _ _ (by decide) (by decide) (by decide) ?_ (okNodes_txt _ (noLt_escape _))
-  intro s hs
-  simp only [List.mem_cons, List.mem_nil_iff, or_false] at hs
-  rcases hs with rfl | rfl
-  · decide
-  · exact tree_css_safe t ht
+  exact okNode_el _ _ _ _ _ (by decide) (by decide) (by decide)
+    (mem_cons_css (mem_cons_css hcss (tree_css_safe t ht)) (by decide)) rfl
+    (okNodes_txt _ (noLt_escape _))
 
-theorem ok_detailsDoc (c : Ctx) (name : Option Str) (path : List Key) (t : Tree) (content : HNode)
-    (ht : safeTree t = true) (hc : okNode content = true) (hne : isText content = false) :
-    okNode (detailsDoc c name path t content) = true ∧ isText (detailsDoc c name path t content) = false := by
+theorem contentCss_safe (c : Ctx) (top : Top) (name : Option Str) (t : Tree) (h : safeTop top = true) :
+    ∀ s ∈ contentCss c top name t, safeVal s = true := by
+  unfold contentCss
+  split
+  · exact no_css
+  · exact safeTop_css top h
+
+theorem ok_detailsDoc (c : Ctx) (top : Top) (name : Option Str) (path : List Key) (t : Tree)
+    (content : HNode) (ht : safeTree t = true) (htop : safeTop top = true)
+    (hc : okNode content = true) (hne : isText content = false) :
+    okNode (detailsDoc c top name path t content) = true
+      ∧ isText (detailsDoc c top name path t content) = false := by
   unfold detailsDoc
   split
-  · refine ⟨okNode_el _ _ _ _ (by decide) (by decide) ?_ ?_ ?_, rfl⟩
+  · refine ⟨okNode_el _ _ _ _ _ (by decide) (by decide) ?_ ?_ rfl ?_, rfl⟩
     · split <;> decide
-    · intro s hs
-      simp only [List.mem_cons, List.mem_nil_iff, or_false] at hs
-      rcases hs with rfl | rfl
-      · decide
-      · exact tree_css_safe t ht
-    · exact okNodes_pair_el content hc hne _ (ok_summaryDoc c name t ht)
+    · exact mem_cons_css (mem_cons_css (safeTop_css top htop) (tree_css_safe t ht)) (by decide)
+    · exact okNodes_pair_el content hc hne _ (ok_summaryDoc c top name t ht htop)
   · exact ⟨hc, hne⟩
 
-theorem ok_complexDoc (kind : NodeKind) (body : List HNode) (hk : safeKind kind = true)
-    (hb : okNodes body = true) : okNode (complexDoc kind body) = true := by
+theorem ok_complexDoc (kind : NodeKind) (css : List Str) (body : List HNode) (hk : safeKind kind = true)
+    (hcss : ∀ s ∈ css, safeVal s = true) (hb : okNodes body = true) :
+    okNode (complexDoc kind css body) = true := by
   unfold complexDoc
-  refine okNode_el _ _ _ _ (by decide) (by decide) (by decide) ?_ hb
-  intro s hs
-  simp only [List.mem_cons, List.mem_nil_iff, or_false] at hs
-  rcases hs with rfl | rfl
-  · decide
-  · exact nodeKind_css_safe kind hk
+  exact okNode_el _ _ _ _ _ (by decide) (by decide) (by decide)
+    (mem_cons_css (mem_cons_css hcss (nodeKind_css_safe kind hk)) (by decide)) rfl hb
 
 theorem ok_rowDoc (kc : List HNode) (vc : HNode) (hk : okNodes kc = true) (hv : okNode vc = true) :
     okNode (rowDoc kc vc) = true := by
   unfold rowDoc
-  refine okNode_el _ _ _ _ (by decide) (by decide) (by decide) (by intro s hs; cases hs) ?_
+  refine okNode_el _ _ _ _ _ (by decide) (by decide) (by decide) no_css rfl ?_
   rw [okNodes_cons_el, okNodes_cons_el]
-  have h1 : okNode (el c!"td" [] [] kc) = true :=
-    okNode_el _ _ _ _ (by decide) (by decide) (by decide) (by intro s hs; cases hs) hk
-  have h2 : okNode (el c!"td" [] [] [vc]) = true :=
-    okNode_el _ _ _ _ (by decide) (by decide) (by decide) (by intro s hs; cases hs) (okNodes_singleton vc hv)
+  have h1 : okNode (el c!"td" [] [] [] kc) = true :=
+    okNode_el _ _ _ _ _ (by decide) (by decide) (by decide) no_css rfl hk
+  have h2 : okNode (el c!"td" [] [] [] [vc]) = true :=
+    okNode_el _ _ _ _ _ (by decide) (by decide) (by decide) no_css rfl (okNodes_singleton vc hv)
   simp [h1, h2, okNodes]
 
+theorem hlClasses_safe (c : Ctx) (path : List Key) : ∀ s ∈ hlClasses c path, safeVal s = true := by
+  intro s hs
+  unfold hlClasses at hs
+  simp only [List.mem_append] at hs
+  rcases hs with hs | hs
+  · split at hs
+    · simp only [List.mem_singleton] at hs; subst hs; decide
+    · cases hs
+  · split at hs
+    · simp only [List.mem_singleton] at hs; subst hs; decide
+    · cases hs
+
+theorem ok_wrapDoc (c : Ctx) (path : List Key) (n : HNode) (hn : okNode n = true)
+    (hne : isText n = false) :
+    okNode (wrapDoc c path n) = true ∧ isText (wrapDoc c path n) = false := by
+  unfold wrapDoc
+  split
+  · exact ⟨hn, hne⟩
+  · exact ⟨okNode_el _ _ _ _ _ (by decide) (by decide) (by decide) (hlClasses_safe c path) rfl
+      (okNodes_singleton n hn), rfl⟩
+
+theorem okNodes_cons_of (n : HNode) (ns : List HNode) (hn : okNode n = true) (hne : isText n = false)
+    (hns : okNodes ns = true) : okNodes (n :: ns) = true := by
+  cases n with
+  | text s => simp [isText] at hne
+  | elem tag attrs cs => simp [okNodes, hn, hns, noAdjText]
+
 mutual
-  theorem ok_renderDoc (c : Ctx) (name : Option Str) (path : List Key) (t : Tree)
-      (ht : safeTree t = true) :
-      okNode (renderDoc c name path t) = true ∧ isText (renderDoc c name path t) = false := by
+  theorem ok_renderDoc (c : Ctx) (top : Top) (name : Option Str) (path : List Key) (t : Tree)
+      (ht : safeTree t = true) (htop : safeTop top = true) (hc : safeCtx c = true) :
+      okNode (renderDoc c top name path t) = true ∧ isText (renderDoc c top name path t) = false := by
     cases t with
     | leaf k p kind repr raw tip =>
       simp only [renderDoc]
-      exact ok_detailsDoc c name path _ _ ht (ok_simpleValueDoc c _ ht) rfl
+      exact ok_detailsDoc c top name path _ _ ht htop
+        (ok_simpleValueDoc c _ _ ht (contentCss_safe c top name _ htop)) rfl
     | node k p kind tip children =>
       simp only [renderDoc]
       have ht' := ht
       simp only [safeTree, Bool.and_eq_true] at ht'
-      refine ok_detailsDoc c name path _ _ ht (ok_complexDoc kind _ ht'.1 ?_) rfl
+      refine ok_detailsDoc c top name path _ _ ht htop
+        (ok_complexDoc kind _ _ ht'.1 (contentCss_safe c top name _ htop) ?_) rfl
       cases children with
       | nil =>
-        show okNodes [el c!"span" [] [c!"empty-container"] []] = true
-        exact okNodes_singleton _ (okNode_el _ _ _ _ (by decide) (by decide) (by decide)
-          (by intro s hs; simp only [List.mem_singleton] at hs; subst hs; decide) rfl)
+        show okNodes [el c!"span" [] [c!"empty-container"] [] []] = true
+        exact okNodes_singleton _ (okNode_el _ _ _ _ _ (by decide) (by decide) (by decide)
+          (mem_cons_css no_css (by decide)) rfl rfl)
       | cons t ts =>
         show okNodes (if (kind.isSeq || c.keyStyle == KeyStyle.label) = true then
-            [el c!"table" [] [] (rowsDoc c path (t :: ts))]
+            [el c!"table" [] [] [] (rowsDoc c path (t :: ts))]
           else summaryChildrenDoc c path (t :: ts)) = true
         split
-        · exact okNodes_singleton _ (okNode_el _ _ _ _ (by decide) (by decide) (by decide)
-            (by intro s hs; cases hs) (ok_rowsDoc c path (t :: ts) ht'.2))
-        · exact ok_summaryChildrenDoc c path (t :: ts) ht'.2
+        · exact okNodes_singleton _ (okNode_el _ _ _ _ _ (by decide) (by decide) (by decide)
+            no_css rfl (ok_rowsDoc c path (t :: ts) ht'.2 hc))
+        · exact ok_summaryChildrenDoc c path (t :: ts) ht'.2 hc
   theorem ok_summaryChildrenDoc (c : Ctx) (path : List Key) (ts : List Tree)
-      (hts : safeTrees ts = true) : okNodes (summaryChildrenDoc c path ts) = true := by
+      (hts : safeTrees ts = true) (hc : safeCtx c = true) :
+      okNodes (summaryChildrenDoc c path ts) = true := by
     cases ts with
     | nil => rfl
     | cons t ts =>
       simp only [safeTrees, Bool.and_eq_true] at hts
-      simp only [summaryChildrenDoc, okNodes, Bool.and_eq_true]
-      have h := ok_renderDoc (childCtx c) (some t.key.summaryName) (path ++ [t.key]) t hts.1
-      refine ⟨⟨h.1, ?_⟩, ok_summaryChildrenDoc c path ts hts.2⟩
-      cases hr : renderDoc (childCtx c) (some t.key.summaryName) (path ++ [t.key]) t with
-      | text s => rw [hr] at h; simp [isText] at h
-      | elem tag attrs cs => rfl
+      simp only [summaryChildrenDoc]
+      have h := ok_renderDoc (childCtx c) {} (some t.key.summaryName) (path ++ [t.key]) t hts.1 rfl hc
+      have hw := ok_wrapDoc c (path ++ [t.key]) _ h.1 h.2
+      exact okNodes_cons_of _ _ hw.1 hw.2 (ok_summaryChildrenDoc c path ts hts.2 hc)
   theorem ok_rowsDoc (c : Ctx) (path : List Key) (ts : List Tree)
-      (hts : safeTrees ts = true) : okNodes (rowsDoc c path ts) = true := by
+      (hts : safeTrees ts = true) (hc : safeCtx c = true) : okNodes (rowsDoc c path ts) = true := by
     cases ts with
     | nil => rfl
     | cons t ts =>
       simp only [safeTrees, Bool.and_eq_true] at hts
       simp only [rowsDoc]
-      unfold rowDoc
-      rw [okNodes_cons_el]
-      have h := ok_renderDoc (childCtx c) none (path ++ [t.key]) t hts.1
-      have := ok_rowDoc (objectKeyDoc (childCtx c) t) _ (ok_objectKeyDoc (childCtx c) t) h.1
-      unfold rowDoc at this
-      simp [this, ok_rowsDoc c path ts hts.2]
+      have h := ok_renderDoc (childCtx c) {} none (path ++ [t.key]) t hts.1 rfl hc
+      have hw := ok_wrapDoc c (path ++ [t.key]) _ h.1 h.2
+      have hr := ok_rowDoc (objectKeyDoc (childCtx c) t) _ (ok_objectKeyDoc (childCtx c) t hc) hw.1
+      exact okNodes_cons_of _ _ hr rfl (ok_rowsDoc c path ts hts.2 hc)
 end
 
-end Pg.C20
-
-namespace Pg.C20
 
 /-! ### every leaf text and every shown key is a text node of the document -/
 
@@ -650,29 +808,29 @@ theorem mem_texts_txt (s : Str) (h : s ≠ []) : s ∈ textsOfAll (txt s) := by
   have : s.isEmpty = false := by cases s <;> simp_all
   simp [this, textsOfAll, textsOf]
 
-theorem texts_el (tag : Str) (o cl : List Str) (ch : List HNode) :
-    textsOf (el tag o cl ch) = textsOfAll ch := rfl
+theorem texts_el (tag : Str) (o cl : List Str) (st : List (Str × Option Str)) (ch : List HNode) :
+    textsOf (el tag o cl st ch) = textsOfAll ch := rfl
 
-theorem mem_detailsDoc_of_content (c : Ctx) (name : Option Str) (path : List Key) (t : Tree)
+theorem mem_detailsDoc_of_content (c : Ctx) (top : Top) (name : Option Str) (path : List Key) (t : Tree)
     (content : HNode) (x : Str) (h : x ∈ textsOf content) :
-    x ∈ textsOf (detailsDoc c name path t content) := by
+    x ∈ textsOf (detailsDoc c top name path t content) := by
   unfold detailsDoc
   split
   · simp [texts_el, textsOfAll, h]
   · exact h
 
-theorem name_mem_detailsDoc (c : Ctx) (n : Str) (path : List Key) (t : Tree) (content : HNode)
-    (hs : needsSummary c true t = true) (hn : n ≠ []) :
-    escape n ∈ textsOf (detailsDoc c (some n) path t content) := by
+theorem name_mem_detailsDoc (c : Ctx) (top : Top) (n : Str) (path : List Key) (t : Tree) (content : HNode)
+    (hs : hasSummary c top (some n) t = true) (hn : n ≠ []) :
+    escape n ∈ textsOf (detailsDoc c top (some n) path t content) := by
   unfold detailsDoc
-  simp only [Option.isSome_some, hs, if_true, texts_el, textsOfAll, List.mem_append]
+  simp only [hs, if_true, texts_el, textsOfAll, List.mem_append]
   refine Or.inl ?_
   unfold summaryDoc
   simp only [texts_el, List.cons_append, List.nil_append, textsOfAll, textsOfAll_append, List.mem_append]
   exact Or.inl (Or.inl (mem_texts_txt _ (escape_ne_nil n hn)))
 
-theorem leaf_mem_simpleValueDoc (c : Ctx) (t : Tree) (h : leafText c t ≠ []) :
-    escape (leafText c t) ∈ textsOf (simpleValueDoc c t) := by
+theorem leaf_mem_simpleValueDoc (c : Ctx) (css : List Str) (t : Tree) (h : leafText c t ≠ []) :
+    escape (leafText c t) ∈ textsOf (simpleValueDoc c css t) := by
   unfold simpleValueDoc
   rw [texts_el]
   exact mem_texts_txt _ (escape_ne_nil _ h)
@@ -681,6 +839,13 @@ theorem texts_rowDoc (kc : List HNode) (vc : HNode) :
     textsOf (rowDoc kc vc) = textsOfAll kc ++ textsOf vc := by
   simp [rowDoc, texts_el, textsOfAll]
 
+theorem mem_wrapDoc (c : Ctx) (path : List Key) (n : HNode) (x : Str) (h : x ∈ textsOf n) :
+    x ∈ textsOf (wrapDoc c path n) := by
+  unfold wrapDoc
+  split
+  · exact h
+  · simpa [texts_el, textsOfAll] using h
+
 theorem key_mem_objectKeyDoc (c : Ctx) (t : Tree) (h : t.key.text ≠ []) :
     escape t.key.text ∈ textsOfAll (objectKeyDoc c t) := by
   unfold objectKeyDoc
@@ -688,15 +853,15 @@ theorem key_mem_objectKeyDoc (c : Ctx) (t : Tree) (h : t.key.text ≠ []) :
   exact Or.inl (mem_texts_txt _ (escape_ne_nil _ h))
 
 mutual
-  theorem leafTexts_mem (c : Ctx) (name : Option Str) (path : List Key) (t : Tree) :
-      ∀ x ∈ leafTextsOf c t, x ≠ [] → escape x ∈ textsOf (renderDoc c name path t) := by
+  theorem leafTexts_mem (c : Ctx) (top : Top) (name : Option Str) (path : List Key) (t : Tree) :
+      ∀ x ∈ leafTextsOf c t, x ≠ [] → escape x ∈ textsOf (renderDoc c top name path t) := by
     cases t with
     | leaf k p kind repr raw tip =>
       intro x hx hne
       simp only [leafTextsOf, List.mem_singleton] at hx
       subst hx
       simp only [renderDoc]
-      exact mem_detailsDoc_of_content _ _ _ _ _ _ (leaf_mem_simpleValueDoc c _ hne)
+      exact mem_detailsDoc_of_content _ _ _ _ _ _ _ (leaf_mem_simpleValueDoc c _ _ hne)
     | node k p kind tip children =>
       intro x hx hne
       simp only [leafTextsOf] at hx
@@ -708,7 +873,7 @@ mutual
       | nil => simp [leafTextsOfAll] at hx
       | cons t ts =>
         show escape x ∈ textsOfAll (if (kind.isSeq || c.keyStyle == KeyStyle.label) = true then
-            [el c!"table" [] [] (rowsDoc c path (t :: ts))]
+            [el c!"table" [] [] [] (rowsDoc c path (t :: ts))]
           else summaryChildrenDoc c path (t :: ts))
         split
         · simp only [textsOfAll, texts_el, List.append_nil]
@@ -724,7 +889,7 @@ mutual
       simp only [leafTextsOfAll, List.mem_append] at hx
       simp only [summaryChildrenDoc, textsOfAll, List.mem_append]
       rcases hx with hx | hx
-      · exact Or.inl (leafTexts_mem (childCtx c) _ _ t x hx hne)
+      · exact Or.inl (mem_wrapDoc _ _ _ _ (leafTexts_mem (childCtx c) {} _ _ t x hx hne))
       · exact Or.inr (leafTexts_mem_summary c path ts x hx hne)
   theorem leafTexts_mem_rows (c : Ctx) (path : List Key) (ts : List Tree) :
       ∀ x ∈ leafTextsOfAll (childCtx c) ts, x ≠ [] →
@@ -736,13 +901,13 @@ mutual
       simp only [leafTextsOfAll, List.mem_append] at hx
       simp only [rowsDoc, textsOfAll, texts_rowDoc, List.mem_append]
       rcases hx with hx | hx
-      · exact Or.inl (Or.inr (leafTexts_mem (childCtx c) _ _ t x hx hne))
+      · exact Or.inl (Or.inr (mem_wrapDoc _ _ _ _ (leafTexts_mem (childCtx c) {} _ _ t x hx hne)))
       · exact Or.inr (leafTexts_mem_rows c path ts x hx hne)
 end
 
 mutual
-  theorem keyTexts_mem (c : Ctx) (name : Option Str) (path : List Key) (t : Tree) :
-      ∀ x ∈ keyTextsOf true c t, x ≠ [] → escape x ∈ textsOf (renderDoc c name path t) := by
+  theorem keyTexts_mem (c : Ctx) (top : Top) (name : Option Str) (path : List Key) (t : Tree) :
+      ∀ x ∈ keyTextsOf true c t, x ≠ [] → escape x ∈ textsOf (renderDoc c top name path t) := by
     cases t with
     | leaf k p kind repr raw tip => intro x hx; simp [keyTextsOf] at hx
     | node k p kind tip children =>
@@ -756,7 +921,7 @@ mutual
       | nil => simp [keyTextsOfAll] at hx
       | cons t ts =>
         show escape x ∈ textsOfAll (if (kind.isSeq || c.keyStyle == KeyStyle.label) = true then
-            [el c!"table" [] [] (rowsDoc c path (t :: ts))]
+            [el c!"table" [] [] [] (rowsDoc c path (t :: ts))]
           else summaryChildrenDoc c path (t :: ts))
         split
         · rename_i hl
@@ -783,15 +948,18 @@ mutual
         · rename_i hs
           simp only [List.mem_singleton] at hx
           subst hx
+          have hs' : hasSummary (childCtx c) {} (some t.key.summaryName) t = true := by
+            simpa [hasSummary] using hs
+          apply mem_wrapDoc
           cases t with
           | leaf k p kind repr raw tip =>
             simp only [renderDoc]
-            exact name_mem_detailsDoc _ _ _ _ _ hs hne
+            exact name_mem_detailsDoc _ _ _ _ _ _ hs' hne
           | node k p kind tip children =>
             simp only [renderDoc]
-            exact name_mem_detailsDoc _ _ _ _ _ hs hne
+            exact name_mem_detailsDoc _ _ _ _ _ _ hs' hne
         · cases hx
-      · exact Or.inl (keyTexts_mem (childCtx c) _ _ t x hx hne)
+      · exact Or.inl (mem_wrapDoc _ _ _ _ (keyTexts_mem (childCtx c) {} _ _ t x hx hne))
       · exact Or.inr (keyTexts_mem_summary c path ts x hx hne)
   theorem keyTexts_mem_rows (c : Ctx) (path : List Key) (ts : List Tree) :
       ∀ x ∈ keyTextsOfAll true c true ts, x ≠ [] →
@@ -805,13 +973,10 @@ mutual
       rcases hx with (hx | hx) | hx
       · subst hx
         exact Or.inl (Or.inl (key_mem_objectKeyDoc _ t hne))
-      · exact Or.inl (Or.inr (keyTexts_mem (childCtx c) _ _ t x hx hne))
+      · exact Or.inl (Or.inr (mem_wrapDoc _ _ _ _ (keyTexts_mem (childCtx c) {} _ _ t x hx hne)))
       · exact Or.inr (keyTexts_mem_rows c path ts x hx hne)
 end
 
-end Pg.C20
-
-namespace Pg.C20
 
 theorem concatStrs_map_print (chs : List (List HNode)) :
     concatStrs (chs.map printNodes) = printNodes chs.flatten := by
@@ -856,21 +1021,27 @@ theorem safeTree_displayed (o : Opts) (v : Tree) (h : safeTree v = true) :
     intro t ht
     exact h.2 t (selectChildren_subset _ _ _ t ht)
 
-end Pg.C20
-
-namespace Pg.C20
 
 /-- The document the tree view renders to (root name and key filter applied). -/
 def docOf (o : Opts) (v : Tree) : HNode :=
-  renderDoc o.toCtx (o.name.map Key.summaryName) [] (displayed o v)
+  renderDoc o.toCtx o.top (o.name.map Key.summaryName) [] (displayed o v)
+
+/-- Everything the caller writes into attributes / the title fits there. -/
+def safeOpts (o : Opts) : Bool := safeTop o.top && safeCtx o.toCtx
+
+theorem ok_docOf (o : Opts) (v : Tree) (hv : safeTree v = true) (ho : safeOpts o = true) :
+    okNodes [docOf o v] = true := by
+  simp only [safeOpts, Bool.and_eq_true] at ho
+  exact okNodes_singleton _ (ok_renderDoc o.toCtx o.top (o.name.map Key.summaryName) []
+    (displayed o v) (safeTree_displayed o v hv) ho.1 ho.2).1
 
 theorem parse_renderTree (st : Sites) (hst : st.allEscaped = true) (o : Opts) (v : Tree)
-    (hv : safeTree v = true) : parseHtml (renderTree st o v) = some [docOf o v] := by
-  have hok := ok_renderDoc o.toCtx (o.name.map Key.summaryName) [] (displayed o v)
-    (safeTree_displayed o v hv)
+    (hv : safeTree v = true) (ho : safeOpts o = true) :
+    parseHtml (renderTree st o v) = some [docOf o v] := by
   have : renderTree st o v = printNodes [docOf o v] := by
     simp [renderTree, printNodes, render_print st hst, docOf]
   rw [this]
-  exact parseHtml_print _ (okNodes_wf _ (okNodes_singleton _ hok.1))
+  exact parseHtml_print _ (okNodes_wf _ (ok_docOf o v hv ho))
+
 
 end Pg.C20
